@@ -32,7 +32,7 @@ def run(ctx):
     n = 60 if ctx.quick() else 1200
     path, models = S.generate(ctx, n, kind="bigint", name="lim")
     binary = os.path.join(C.TARGET, "debug", "c05")
-    nopt = 45
+    nopt = 55
     # reuse the watchdog runner in `limits` mode
     import subprocess
     orig = subprocess.Popen
